@@ -69,6 +69,10 @@ type c11Case struct {
 	Deep       int    `json:",omitempty"` // the request carries an error detail holding a list nested this many levels deep
 	RespSize   int    `json:",omitempty"` // stream: payload bytes in every response (frame sizes around powers of two)
 	ErrCode    uint32 // 0 = ok
+	// OKErr (stream methods): the handler fails with a non-nil error whose gRPC status says OK and has no
+	// message (a careless wrapper around a nil upstream status); nothing else is in the trailer. The call
+	// failed, so the reply still ends with exactly one trailer frame, and that frame does not say OK
+	OKErr bool `json:",omitempty"`
 	// JSONTwin: additionally send the same message JSON-encoded and compare (valid unary requests only)
 	JSONTwin bool `json:",omitempty"`
 }
@@ -132,6 +136,9 @@ func (c *c11Case) service(r *c11Run) *Service {
 				if err := stream.SendMsg(&pb.Message{Count: int32(i), Payload: bytes.Repeat([]byte{byte('a' + i)}, c.RespSize)}); err != nil {
 					return err
 				}
+			}
+			if c.OKErr {
+				return okEmptyStatusErr{}
 			}
 			if c.ErrCode != 0 {
 				return status.Error(codes.Code(c.ErrCode), "app error")
@@ -545,7 +552,13 @@ func propC11(c c11Case) *Outcome {
 			return o.failf("request stream of %d complete frames: handler's RecvMsg ended with %q, expected EOF", complete, rep.RecvErr)
 		}
 	}
-	if uint32(d.TrailerMsg.Code) != c.ErrCode && d.TrailerMsg.Code != int32(codes.InvalidArgument) && rep.AppRuns >= 0 {
+	if c.OKErr && rep.Entered > 0 {
+		// (whichever way the handler left - this error, or an earlier receive or send error - it returned non-nil)
+		o.class("stream/handler-error-with-ok-status")
+		if d.TrailerMsg.Code == 0 {
+			return o.failf("stream handler returned a non-nil error (its status says OK, no message): the trailer reports code 0, success, for a failed call")
+		}
+	} else if uint32(d.TrailerMsg.Code) != c.ErrCode && d.TrailerMsg.Code != int32(codes.InvalidArgument) && rep.AppRuns >= 0 {
 		// the handler's own status must be in the trailer unless its RecvMsg failed first
 		if !(c.ErrCode == 0 && d.TrailerMsg.Code == 0) {
 			return o.failf("stream trailer carries code %d, handler returned %d", d.TrailerMsg.Code, c.ErrCode)
@@ -681,9 +694,9 @@ func genC11(t *rapid.T) c11Case {
 	for i := 0; i < nh; i++ {
 		switch rapid.SampledFrom([]int{0, 0, 0, 1, 2, 2, 3, 3, 4, 5}).Draw(t, "hkind") {
 		case 0:
-			c.Hdrs = append(c.Hdrs, HdrPair{"Zz-Data-Bin", base64.URLEncoding.EncodeToString(rapid.SliceOfN(rapid.Byte(), 0, 9).Draw(t, "binv"))})
+			c.Hdrs = append(c.Hdrs, HdrPair{rapid.SampledFrom([]string{"Zz-Data-Bin", "Zz-Data-Bin", "Grpc-Trace-Bin"}).Draw(t, "goodbink"), base64.URLEncoding.EncodeToString(rapid.SliceOfN(rapid.Byte(), 0, 9).Draw(t, "binv"))})
 		case 1:
-			c.Hdrs = append(c.Hdrs, HdrPair{rapid.SampledFrom([]string{"Zz-Data-Bin", "q-bin", "APP-X-BIN"}).Draw(t, "bink"),
+			c.Hdrs = append(c.Hdrs, HdrPair{rapid.SampledFrom([]string{"Zz-Data-Bin", "q-bin", "APP-X-BIN", "Grpc-Trace-Bin", "grpc-status-details-bin", "GRPC-TAGS-BIN", "X-Grpc-Bin"}).Draw(t, "bink"),
 				rapid.SampledFrom([]string{"!!!", "a", "YQ", "YQ=", "a b", "YWJj=", "+/+/", "YWJj\tZA=="}).Draw(t, "badbin")})
 		case 2:
 			c.Hdrs = append(c.Hdrs, HdrPair{"Grpc-Timeout", genTimeoutHeader(t)})
@@ -734,6 +747,9 @@ func genC11(t *rapid.T) c11Case {
 		c.RespN = 1
 	}
 	c.ErrCode = rapid.SampledFrom([]uint32{0, 0, 0, 0, 3, 5, 13, 16, 17, 18, 99, 1 << 31}).Draw(t, "errcode")
+	if rapid.IntRange(0, 7).Draw(t, "okerr") == 0 {
+		c.OKErr, c.ErrCode = true, 0
+	}
 	c.NoRecv = rapid.IntRange(0, 4).Draw(t, "norecv") == 0
 	c.JSONTwin = rapid.Bool().Draw(t, "jsontwin")
 	return c
@@ -741,7 +757,7 @@ func genC11(t *rapid.T) c11Case {
 
 func init() { registerReplay("C11", propC11) }
 
-const c11Rule = "rapid-generated HTTP requests against httpgrpc.Server and HandleServices via httptest: method (POST/GET/HEAD/PUT/DELETE/OPTIONS/PATCH/case variants/custom tokens) x path (each registered kind, unregistered, near misses) x Content-Type grammar (known types, case variants, parameters, malformed parameters, unknown, empty, absent, duplicated) x header sets (valid/invalid base64 in -bin headers, good/bad GRPC-Timeout) x body (protobuf, protojson, frame sequences, frame sequences truncated at/inside a frame incl. right after a size preface, arbitrary bytes, hostile prefixes); " +
+const c11Rule = "rapid-generated HTTP requests against httpgrpc.Server and HandleServices via httptest: method (POST/GET/HEAD/PUT/DELETE/OPTIONS/PATCH/case variants/custom tokens) x path (each registered kind, unregistered, near misses) x Content-Type grammar (known types, case variants, parameters, malformed parameters, unknown, empty, absent, duplicated) x header sets (valid/invalid base64 in -bin headers, also under names in the grpc- namespace, good/bad GRPC-Timeout) x body (protobuf, protojson, frame sequences, frame sequences truncated at/inside a frame incl. right after a size preface, arbitrary bytes, hostile prefixes); " +
 	"oracle = gate model: handler entered <=1 times and only if POST + supported media type (mime.ParseMediaType) + all -bin headers decode, otherwise 405/415/400/404 each only if its condition is violated; undecodable unary body => X-GRPC-Status 3 without application code; JSON twin of a protobuf request => equal request, response, status; stream replies parse (reference decoder) as frames + exactly one trailer, nothing after; a request stream cut inside a frame gives the handler its complete messages then a non-EOF error (non-OK trailer when the handler returns it), one cut on a boundary gives EOF; never a panic; " +
 	"also generated since the seeded rounds: servers mounted under a base path (paths outside it and near misses are unknown), a custom ErrorRenderer (never invoked for requests the library must refuse), requests without a declared length, error statuses carrying a detail of a type unknown to the server, the per-method HTTP server form; " +
 	"non-trivial = >=1 gate violated, or arbitrary/JSON body, or a frame body to a unary method; distinct by case hash"
